@@ -1,9 +1,15 @@
 """Runs real-multiprocessing parallelize flows (called in its own process group by c18.py):
-   par_real.py specs.json out.json   - one outcome per spec, written incrementally."""
+       par_real.py specs.json out.json
+   one outcome per spec, written incrementally.  Every queue operation, start and join of the REAL primitives is
+   recorded (queue recorder): proxies around multiprocessing / threading / queue are placed in the module globals of
+   dataflows.processors.parallelize; each actor logs a put BEFORE the call and a get AFTER it returns through one
+   O_APPEND file descriptor (single write() per event, inherited by the forked workers), so the file order is consistent
+   with real time and with every happens-before edge through a queue."""
 import json
 import os
 import random
 import sys
+import threading
 import time
 
 sys.path.insert(0, os.path.dirname(os.path.dirname(os.path.abspath(__file__))))
@@ -13,6 +19,124 @@ setup_repo()
 from dataflows import Flow, parallelize  # noqa
 
 _DELAY = [0.0]
+_LOG = {'fd': None}
+_ACTOR = threading.local()
+_PROC_ACTOR = [None]          # set in a forked worker
+
+
+def actor():
+    return getattr(_ACTOR, 'name', None) or _PROC_ACTOR[0] or 'collector'
+
+
+def log(ev):
+    os.write(_LOG['fd'], (json.dumps(ev) + '\n').encode())
+
+
+def vid(item):
+    return 0 if item is None else item['id']
+
+
+class QueueProxy:
+    def __init__(self, real, role):
+        self.real, self.role = real, role
+
+    def put(self, item, *a, **k):
+        who = actor()
+        v = vid(item)
+        if who == 'producer':
+            log(['PMarker'] if (item is None and self.role == 'q_in') else ['PFail'] if item is None else ['PPut', v])
+        elif who.startswith('w'):
+            log(['WExit', int(who[1:])] if item is None else ['WPut', int(who[1:]), v])
+        elif who == 'fetcher':
+            log(['FEnd'] if item is None else ['FFwd', v])
+        return self.real.put(item, *a, **k)
+
+    def get(self, *a, **k):
+        item = self.real.get(*a, **k)
+        who = actor()
+        v = vid(item)
+        if who.startswith('w') and who != 'worker':
+            log(['WGet', int(who[1:]), v])
+        elif who == 'fetcher':
+            log(['FGet', v])
+        elif who == 'collector':
+            log(['CGet', v])
+        return item
+
+
+class State:
+    def __init__(self):
+        self.mpq = 0
+        self.workers = 0
+        self.started = False
+
+
+def install(pm, state):
+    import multiprocessing as real_mp
+    import queue as real_queue
+    import threading as real_threading
+
+    class MP:
+        @staticmethod
+        def Queue(*a, **k):
+            state.mpq += 1
+            return QueueProxy(real_mp.Queue(*a, **k), 'q_in' if state.mpq % 2 == 1 else 'q_out')
+
+        @staticmethod
+        def Process(target=None, args=(), **k):
+            state.workers += 1
+            idx = state.workers
+
+            def run(*args_):
+                _PROC_ACTOR[0] = 'w%d' % idx
+                return target(*args_)
+            p = real_mp.Process(target=run, args=args, **k)
+            return HandleProxy(p, 'w%d' % idx, state)
+
+    class TH:
+        @staticmethod
+        def Thread(target=None, args=(), **k):
+            name = target.__name__
+
+            def run(*args_):
+                _ACTOR.name = name
+                return target(*args_)
+            return HandleProxy(real_threading.Thread(target=run, args=args, **k), name, state)
+
+    class Q:
+        Empty = real_queue.Empty
+
+        @staticmethod
+        def Queue(*a, **k):
+            return QueueProxy(real_queue.Queue(*a, **k), 'q_internal')
+    pm.mp, pm.threading, pm.queue = MP, TH, Q
+
+
+class HandleProxy:
+    def __init__(self, real, name, state):
+        self.real, self.name, self.state = real, name, state
+
+    def start(self):
+        if not self.state.started:
+            self.state.started = True
+            log(['CStart'])
+        return self.real.start()
+
+    def join(self, *a, **k):
+        r = self.real.join(*a, **k)
+        if self.name == 'producer':
+            log(['CJoinProd'])
+        elif self.name == 'fetcher':
+            log(['CJoinF'])
+        else:
+            log(['CJoinW', int(self.name[1:])])
+        return r
+
+    def close(self):
+        return self.real.close() if hasattr(self.real, 'close') else None
+
+    def kill(self):
+        return self.real.kill()
 
 
 def row_func(row):
@@ -24,10 +148,16 @@ def row_func(row):
 def main(specf, outf):
     specs = json.load(open(specf))
     out = []
-    for sp in specs:
+    pm = sys.modules['dataflows.processors.parallelize']
+    saved = (pm.mp, pm.threading, pm.queue)
+    for si, sp in enumerate(specs):
         rnd = random.Random(sp['seed'])
         R, N, pat = sp['R'], sp['N'], sp['pat']
         _DELAY[0] = rnd.choice([0, 0.002, 0.01])
+        logf = outf + '.%d.log' % si
+        _LOG['fd'] = os.open(logf, os.O_WRONLY | os.O_CREAT | os.O_APPEND | os.O_TRUNC, 0o644)
+        state = State()
+        install(pm, state)
 
         def pred(row, R=R, pat=pat):
             i = row['id']
@@ -38,16 +168,29 @@ def main(specf, outf):
                 if rnd.random() < 0.2:
                     time.sleep(0.001)
                 yield dict(id=i + 1, n=0)
+
+        def sink(rows):
+            for row in rows:
+                if not state.started:
+                    log(['CPeekYield', row['id']])
+                yield row
+            if not state.started:
+                log(['CPeekEnd'])
         delivered, applied = [], []
         ok = True
         try:
-            rows = Flow(src(), parallelize(row_func, num_processors=N, predicate=pred)).results()[0]
+            rows = Flow(src(), parallelize(row_func, num_processors=N, predicate=pred), sink).results()[0]
             for r in (rows[0] if rows else []):
                 delivered.append(r['id'])
                 applied.append(r['n'])
-        except Exception as e:
+        except Exception:
             ok = False
-        out.append(dict(delivered=delivered, applied=applied, terminated=ok))
+        finally:
+            pm.mp, pm.threading, pm.queue = saved
+        os.close(_LOG['fd'])
+        ev = [json.loads(x) for x in open(logf).read().splitlines() if x.strip()]
+        os.unlink(logf)
+        out.append(dict(delivered=delivered, applied=applied, terminated=ok, ev=ev))
         json.dump(out, open(outf, 'w'))
 
 
